@@ -100,7 +100,7 @@ def tasks(tier):
         for n in ls[12:]:
             ts.append({"name": f"crc-bounded-{n}", "fn": "crc", "what": "bounded", "ns": [n]})
     else:
-        ts.append({"name": "crc-bounded-a", "fn": "crc", "what": "bounded", "ns": ls[:16], "cross": True})
+        ts.append({"name": "crc-bounded-a", "fn": "crc", "what": "bounded", "ns": ls[:16]})
         for n in ls[16:]:
             ts.append({"name": f"crc-bounded-{n}", "fn": "crc", "what": "bounded", "ns": [n]})
     return ts
